@@ -88,23 +88,6 @@ template <bool NoneIsLeaf>
             throw py::value_error("PyTree type " + PyRepr(cls) +
                                   " is already registered in the global namespace.");
         }
-        if (IsStructSequenceClass(cls)) [[unlikely]] {
-            PyErr_WarnEx(PyExc_UserWarning,
-                         ("PyTree type " + PyRepr(cls) +
-                          " is a class of `PyStructSequence`, "
-                          "which is already registered in the global namespace. "
-                          "Override it with custom flatten/unflatten functions.")
-                             .c_str(),
-                         /*stack_level=*/2);
-        } else if (IsNamedTupleClass(cls)) [[unlikely]] {
-            PyErr_WarnEx(PyExc_UserWarning,
-                         ("PyTree type " + PyRepr(cls) +
-                          " is a subclass of `collections.namedtuple`, "
-                          "which is already registered in the global namespace. "
-                          "Override it with custom flatten/unflatten functions.")
-                             .c_str(),
-                         /*stack_level=*/2);
-        }
     } else [[likely]] {
         if (!registry->m_named_registrations
                  .emplace(std::make_pair(registry_namespace, cls), std::move(registration))
@@ -114,27 +97,6 @@ template <bool NoneIsLeaf>
                 << PyRepr(registry_namespace) << ".";
             throw py::value_error(oss.str());
         }
-        if (IsStructSequenceClass(cls)) [[unlikely]] {
-            std::ostringstream oss{};
-            oss << "PyTree type " << PyRepr(cls)
-                << " is a class of `PyStructSequence`, "
-                   "which is already registered in the global namespace. "
-                   "Override it with custom flatten/unflatten functions in namespace "
-                << PyRepr(registry_namespace) << ".";
-            PyErr_WarnEx(PyExc_UserWarning,
-                         oss.str().c_str(),
-                         /*stack_level=*/2);
-        } else if (IsNamedTupleClass(cls)) [[unlikely]] {
-            std::ostringstream oss{};
-            oss << "PyTree type " << PyRepr(cls)
-                << " is a subclass of `collections.namedtuple`, "
-                   "which is already registered in the global namespace. "
-                   "Override it with custom flatten/unflatten functions in namespace "
-                << PyRepr(registry_namespace) << ".";
-            PyErr_WarnEx(PyExc_UserWarning,
-                         oss.str().c_str(),
-                         /*stack_level=*/2);
-        }
     }
 }
 
@@ -143,22 +105,49 @@ template <bool NoneIsLeaf>
                                              const py::function& unflatten_func,
                                              const py::object& path_entry_type,
                                              const std::string& registry_namespace) {
-    const scoped_write_lock_guard lock{sm_mutex};
+    {
+        const scoped_write_lock_guard lock{sm_mutex};
 
-    RegisterImpl<NONE_IS_NODE>(cls,
-                               flatten_func,
-                               unflatten_func,
-                               path_entry_type,
-                               registry_namespace);
-    RegisterImpl<NONE_IS_LEAF>(cls,
-                               flatten_func,
-                               unflatten_func,
-                               path_entry_type,
-                               registry_namespace);
-    cls.inc_ref();
-    flatten_func.inc_ref();
-    unflatten_func.inc_ref();
-    path_entry_type.inc_ref();
+        RegisterImpl<NONE_IS_NODE>(cls,
+                                   flatten_func,
+                                   unflatten_func,
+                                   path_entry_type,
+                                   registry_namespace);
+        RegisterImpl<NONE_IS_LEAF>(cls,
+                                   flatten_func,
+                                   unflatten_func,
+                                   path_entry_type,
+                                   registry_namespace);
+        cls.inc_ref();
+        flatten_func.inc_ref();
+        unflatten_func.inc_ref();
+        path_entry_type.inc_ref();
+    }
+
+    // Emit the warning after releasing the registry lock. Classifying the class and issuing the
+    // warning run arbitrary Python code (class attribute hooks, `repr()`, warning filters), which
+    // may switch to another thread that needs the registry lock.
+    const bool is_structseq_class = IsStructSequenceClass(cls);
+    if (is_structseq_class || IsNamedTupleClass(cls)) [[unlikely]] {
+        std::ostringstream oss{};
+        oss << "PyTree type " << PyRepr(cls)
+            << (is_structseq_class ? " is a class of `PyStructSequence`, "
+                                   : " is a subclass of `collections.namedtuple`, ")
+            << "which is already registered in the global namespace. "
+               "Override it with custom flatten/unflatten functions";
+        if (!registry_namespace.empty()) [[likely]] {
+            oss << " in namespace " << PyRepr(registry_namespace);
+        }
+        oss << ".";
+        if (PyErr_WarnEx(PyExc_UserWarning, oss.str().c_str(), /*stack_level=*/2) < 0)
+            [[unlikely]] {
+            // The warning has been turned into an exception. Roll back the registration so that
+            // the failed call leaves the registry unchanged.
+            const py::error_already_set error{};
+            Unregister(cls, registry_namespace);
+            throw error;
+        }
+    }
 }
 
 template <bool NoneIsLeaf>
